@@ -101,6 +101,11 @@ def explore(ctx, art):
                 matched += 1
             elif model[i].startswith("differs"):
                 ctx.broken.append(("correspondence", "C12 path program vs implementation", "%s: %s" % (l, model[i][:400])))
+    # lifecycle traces recorded while the harnesses of other properties run their scenarios (interruption grid of C09: all the
+    # error / cancellation / close paths; observe histories of C08; keep-alive histories of C18 on real connections)
+    fevents, ftraces = foreign_traces(ctx, art)
+    events += fevents
+    ctx.cov["foreign_traces_validated"] = ftraces
     ctx.cov["evaluations"] = events
     ctx.cov["distinct_nontrivial"] = len(distinct)
     ctx.cov["traces_validated_against_impl"] = len(lines)
@@ -113,6 +118,57 @@ def explore(ctx, art):
                        "distinct by the exact trace." % (3 if ctx.tier == "thorough" else 2))
     for l, o in list(zip(lines, impl))[:2]:
         ctx.sample({"scenario": l, "trace": o[:400]})
+
+
+def foreign_traces(ctx, art):
+    import os
+    import random as _r
+    from . import c08, c09, c18
+    rng = _r.Random(ctx.seed)
+    jobs = []
+    grid = ["case %s %s %s %s" % (t, o, p, c) for t in ("udp", "tcp") for o in c09.OPS for p in c09.POINTS for c in c09.CAUSES]
+    jobs.append(("c09", "TestC09", grid))
+    l8 = []
+    for _ in range(300 if ctx.tier == "thorough" else 60):
+        l8 += c08.gen_case(rng)[0]
+    jobs.append(("c08", "TestC08", l8 + ["end"]))
+    l18 = []
+    for _ in range(400 if ctx.tier == "thorough" else 80):
+        cl, kinds, level = c18.gen_case(rng)
+        if level != "unit":
+            l18 += cl
+    jobs.append(("c18", "TestC18", l18 + ["end"]))
+    events = traces = 0
+    for pkg, test, lines in jobs:
+        with common.Lock():
+            exe = common.build_test(ctx, pkg)
+        if not exe:
+            continue
+        tf = os.path.join(ctx.work, "pooltrace_%s.txt" % pkg)
+        if os.path.exists(tf):
+            os.remove(tf)
+        saved = list(ctx.broken)
+        common.run_test_harness(ctx, exe, test, lines, timeout=1200, tag="foreign_" + pkg, env={"VERIF_POOLTRACE": tf})
+        ctx.broken = saved      # the foreign harness's own verdicts belong to its own property's check
+        if not os.path.exists(tf):
+            ctx.notes.append("no lifecycle trace from harness %s" % pkg)
+            continue
+        tl = open(tf).read().splitlines()
+        rc, judge, _ = common.pipe_lines([art["driver"], "judge"], tl)
+        if rc or len(judge) != len(tl):
+            ctx.broken.append(("model", "C12 driver failed on foreign traces of " + pkg, ""))
+            continue
+        for l, j in zip(tl, judge):
+            traces += 1
+            events += l.count(";") + 1
+            if not j.startswith("ok"):
+                label = l.split(" | ")[0]
+                import re
+                what = j.replace("violates ", "")
+                ctx.violations.append(common.Violation("ownership", "C12:%s:%s" % (pkg, re.sub(r"\d+", "N", what)[:80]),
+                                                       "%s: %s" % (label, what), {"input": [label], "trace": l[:6000], "judge": j}))
+        ctx.count("foreign-" + pkg, len(tl))
+    return events, traces
 
 
 def run(ctx):
